@@ -272,17 +272,27 @@ def mk_call(fn: S, args: list[S], kwargs: list[tuple[str, S]]) -> S:
     return ("c", fn, tuple(args), tuple(sorted(kwargs, key=lambda kv: kv[0])))
 
 
+def _negative(cond: S) -> bool:
+    """polarity of a condition: a two-armed conditional is stored with the positive test (``if not c: A else: B`` and
+    ``if c: B else: A`` have one form)"""
+    if not (isinstance(cond, tuple) and cond):
+        return False
+    if cond[0] in ("not", "ne0", "or"):
+        return True
+    return cond[0] == "cmp" and cond[1] in ("sne", "isnot", "notin")
+
+
 def mk_if(cond: S, then: tuple, orelse: tuple) -> S:
-    if isinstance(cond, tuple) and cond and cond[0] == "not" and orelse:
-        return ("if", cond[1], orelse, then)
+    if orelse and _negative(cond):
+        return ("if", mk_not(cond), orelse, then)
     if cond == K_TRUE:
         return ("seq", then)
     return ("if", cond, then, orelse)
 
 
 def mk_ite(cond: S, a: S, b: S) -> S:
-    if isinstance(cond, tuple) and cond and cond[0] == "not":
-        return ("ite", cond[1], b, a)
+    if _negative(cond):
+        return ("ite", mk_not(cond), b, a)
     return ("ite", cond, a, b)
 
 
